@@ -170,7 +170,7 @@ class Interp:
         s.mod, s.ex = mod, (ex or EX); s.steps = 0; s.max_steps = max_steps
         s.events = []      # (kind, msg, line)
         s.nobj = 0; s.fresh_n = 0
-        s.trig = {}; s.accesses = None
+        s.trig = {}; s.accesses = None; s.call_hooks = {}; s.lastframe = {}; s.frames = {}; s.stack = []
     def fresh_real(s, p="f"):
         s.fresh_n += 1; return z3.Real("%s!%d" % (p, s.fresh_n))
     def newobj(s, name, size, init=None, kind="arg"):
@@ -425,10 +425,14 @@ class Interp:
     # ---- execution
     def call(s, fname, args, depth=0):
         f = s.mod.funcs[fname]
+        if fname in s.call_hooks: s.call_hooks[fname](s, args)
         env = {}
         for (t, nm), v in zip(f.params, args): env[nm] = v
         blk = f.entry; prev = None
-        frame_objs = []
+        frame_objs = []; frame = {}; s.stack.append(frame)
+        try: return s._run(f, fname, env, blk, prev, frame_objs, frame, depth)
+        finally: s.stack.pop()
+    def _run(s, f, fname, env, blk, prev, frame_objs, frame, depth):
         while True:
             for ins in f.blocks[blk]:
                 s.steps += 1
@@ -437,7 +441,7 @@ class Interp:
                 if op == "alloca":
                     m = re.match(r"alloca (.*)", t); ty = parse_type(m.group(1))[0]
                     nm = s.mod.varname(f.dbgvars.get(ins.res, "")) or ins.res
-                    o = s.newobj(fname + "." + nm, sizeof(ty), None, "stack"); o.vname = nm; frame_objs.append(o)
+                    o = s.newobj(fname + "." + nm, sizeof(ty), None, "stack"); o.vname = nm; frame_objs.append(o); frame[nm] = o
                     env[ins.res] = Ptr(o, 0)
                 elif op == "load":
                     m = re.match(r"load (?:volatile )?(.*)", t); ty, rest = parse_type(m.group(1))
@@ -534,7 +538,7 @@ class Interp:
                     break
                 elif op == "ret":
                     for o in frame_objs: o.freed = "stack"
-                    s.lastframe = {getattr(o, "vname", o.name): o for o in frame_objs}
+                    s.lastframe = {getattr(o, "vname", o.name): o for o in frame_objs}; s.frames[fname] = s.lastframe
                     if t.strip() == "ret void": return None
                     return s.typed(env, t[4:])[1]
                 elif op == "call":
@@ -568,3 +572,34 @@ def explore(mod, setup, timeout_ms=20000, maxpaths=100000, prefixes=None, interp
         return it.call(fname, args)
     for ret, pc, hyp, taken, status in symcore.explore(run, maxpaths=maxpaths, prefixes=prefixes, timeout_ms=timeout_ms):
         yield cell["it"], ret, status, cell["post"]
+
+# ----------------------------------------------------------------------------- harness helpers
+def mkobj(it, name, vals, ety, kind="inout"):
+    """object initialised from a list of python/z3 values"""
+    n = sizeof(ety); o = it.newobj(name, n * len(vals), None, kind)
+    for i, v in enumerate(vals): o.mem[n * i] = (v, n)
+    return o
+def outobj(it, name, count, ety, kind="out"):
+    """uninitialised output object of count elements"""
+    return it.newobj(name, sizeof(ety) * count, None, kind)
+def symobj(it, name, count, ety, kind="const", lo=None, hi=None, real=None):
+    """lazily symbolic array: element k is the z3 constant <name>_<k> (Real for float types, Int otherwise)"""
+    n = sizeof(ety); isf = ety in ("float", "double") if real is None else real
+    cache = {}
+    def get(k):
+        if k not in cache:
+            cache[k] = z3.Real("%s_%d" % (name, k)) if isf else z3.Int("%s_%d" % (name, k))
+            if lo is not None: CTX.hyp.append(cache[k] >= lo)
+            if hi is not None: CTX.hyp.append(cache[k] <= hi)
+        return cache[k]
+    o = it.newobj(name, n * count, lambda off, ty: get(off // n), kind); o.get = get; o.esize = n
+    return o
+def rd(o, k, esize=None):
+    """read element k of an object after the run (None when never written)"""
+    n = esize or getattr(o, "esize", None) or 8
+    if n * k in o.mem: return o.mem[n * k][0]
+    if o.zero: return 0
+    if o.init is not None: return o.init(n * k, None)
+    return None
+def snapshot(o, count, esize=8):
+    return [rd(o, k, esize) for k in range(count)]
